@@ -778,9 +778,13 @@ func (s *Subscription) processModelEvent(event *rescache.ResourceEvent) {
 func (s *Subscription) handleReaccess(t *rescache.Throttle) {
 	s.access = nil
 	s.flags &= ^flagReaccess
-	// The answer of an access request already in flight is out of date
+	// The answer of an access request already in flight is out of date. The
+	// request that replaces it is governed by the same throttle.
 	if s.flags&flagAccessCalled != 0 {
 		s.flags |= flagAccessStale
+		if t != nil {
+			s.reaccessThrottle = t
+		}
 	}
 
 	if s.direct == 0 {
@@ -980,15 +984,22 @@ func (s *Subscription) loadAccess(cb func(*rescache.Access), t *rescache.Throttl
 
 // retryStaleAccess discards an access answer that was requested before a token
 // change, reaccess event or access reset, and requests access again for the
-// waiting callbacks. It returns true if the answer was discarded.
+// waiting callbacks. If the answer was made stale by a system reset, the new
+// request is governed by the throttle of that reset. It returns true if the
+// answer was discarded.
 func (s *Subscription) retryStaleAccess(cbs []func(*rescache.Access)) bool {
 	if s.flags&flagAccessStale == 0 {
 		return false
 	}
 	s.flags &= ^flagAccessStale
+	t := s.reaccessThrottle
+	// A deferred check will need the throttle as well
+	if s.flags&flagReaccess == 0 {
+		s.reaccessThrottle = nil
+	}
 	s.accessCallbacks = nil
 	for _, cb := range cbs {
-		s.loadAccess(cb, nil)
+		s.loadAccess(cb, t)
 	}
 	return true
 }
